@@ -63,7 +63,8 @@ def plan_format_evaluation(fc_expr, text_tag):
     if not fc_expr:
         return None
     keys = re.findall(r"\[(\d+)\]", fc_expr)
-    return await_([f"fc:{k}{text_tag}" for k in keys])
+    # 931-935 are the shipped, synchronous date-time constraints: evaluated inside the gather but never suspended, so they are no gated awaitables
+    return await_([f"fc:{k}{text_tag}" for k in keys if not 931 <= int(k) <= 935])
 
 
 def plan_ahb_evaluation(parts, text_tag="", tag=""):
